@@ -150,3 +150,62 @@ static std::string op_mp(const Toks &t) {
     return hex(out, 40);
 }
 static Reg r_mp("MP", op_mp);
+
+// MR <shares> <w64|w32> <state40> <rounds> <tape>: mask a state with <shares> shares, then <rounds> x
+// (randomize, unmask, which shares of which word changed)
+static std::string op_mr(const Toks &t) {
+    int n = atoi(t[1].c_str());
+    if (t[2] != HX_WORDKIND) return std::string("CONFIG-MISMATCH ") + HX_WORDKIND;
+    if (n > ASCON_MASKED_MAX_SHARES || n < 2) return "NOSHARES";
+    std::vector<unsigned char> in = unhex(t[3]);
+    int rounds = atoi(t[4].c_str());
+    hx_trng_script(tape_of(t[5]));
+    ascon_trng_state_t trng; ascon_trng_init(&trng);
+    ascon_state_t x1;
+    ascon_init(&x1);
+    ascon_overwrite_bytes(&x1, in.data(), 0, 40);
+    ascon_masked_state_t ms;
+    memset(&ms, 0, sizeof(ms));
+    if (n == 2) ascon_x2_copy_from_x1(&ms, &x1, &trng);
+#if ASCON_MASKED_MAX_SHARES >= 3
+    else if (n == 3) ascon_x3_copy_from_x1(&ms, &x1, &trng);
+#endif
+#if ASCON_MASKED_MAX_SHARES >= 4
+    else if (n == 4) ascon_x4_copy_from_x1(&ms, &x1, &trng);
+#endif
+    ascon_free(&x1);
+    std::string res;
+    for (int r = 0; r <= rounds; ++r) {
+        ascon_masked_state_t before = ms;
+        if (r) {
+            if (n == 2) ascon_x2_randomize(&ms, &trng);
+#if ASCON_MASKED_MAX_SHARES >= 3
+            else if (n == 3) ascon_x3_randomize(&ms, &trng);
+#endif
+#if ASCON_MASKED_MAX_SHARES >= 4
+            else if (n == 4) ascon_x4_randomize(&ms, &trng);
+#endif
+        }
+        ascon_state_t y; unsigned char out[40];
+        if (n == 2) ascon_x2_copy_to_x1(&y, &ms);
+#if ASCON_MASKED_MAX_SHARES >= 3
+        else if (n == 3) ascon_x3_copy_to_x1(&y, &ms);
+#endif
+#if ASCON_MASKED_MAX_SHARES >= 4
+        else if (n == 4) ascon_x4_copy_to_x1(&y, &ms);
+#endif
+        ascon_extract_bytes(&y, out, 0, 40);
+        ascon_free(&y);
+        if (r) res += " ";
+        res += hex(out, 40);
+        if (r) {
+            res += ":";
+            for (int w = 0; w < 5; ++w) {
+                if (w) res += ",";
+                for (int j = 0; j < n; ++j) res += (before.M[w].S[j] != ms.M[w].S[j]) ? "1" : "0";
+            }
+        }
+    }
+    return res;
+}
+static Reg r_mr("MR", op_mr);
